@@ -26,6 +26,7 @@ Spline interpolation and scipy.optimize.minimize are oracles: validator checks o
 -/
 import CBV.Lemmas.C16
 import CBV.Lemmas.C08
+import CBV.Lemmas.C16Real
 import Mathlib.Tactic.NormNum
 
 namespace CBV.C16
@@ -434,6 +435,137 @@ example : closestSeg [⟨0, 0, 0⟩, ⟨0, 1, 0⟩, ⟨2, 1, 0⟩] ⟨1, 3, 0⟩
     closestParamL [0, 1 / 3, 1] [⟨0, 0, 0⟩, ⟨0, 1, 0⟩, ⟨2, 1, 0⟩] ⟨1, 3, 0⟩ = 2 / 3 ∧
     closestParamL [0, 1 / 3, 1] [⟨0, 0, 0⟩, ⟨0, 1, 0⟩, ⟨2, 1, 0⟩] ⟨5, 0, 0⟩ = 1 := by
   refine ⟨?_, ?_, ?_⟩ <;> decide +kernel
+
+/-! ### round 6: function curves (Line / Circle / Analytic) — samples, exact additivity at sample points, monotone length -/
+
+/-- `FunctionCurveBase.discretize(a, b, k + m + 1)` is `discretize(a, t_k, k + 1)` followed by `discretize(t_k, b, m + 1)` without
+    its first point, for **every** sample count and every split sample `t_k` (`np.linspace` over ℚ, end points exact) -/
+theorem T_C16_samples_split (f : Rat → α) (a b : Rat) (k m : Nat) (hk : 1 ≤ k) (hm : 1 ≤ m) :
+    discretizeF f a b (k + m + 1) =
+      discretizeF f a (sample a b (k + m) k) (k + 1) ++ (discretizeF f (sample a b (k + m) k) b (m + 1)).tail := by
+  unfold discretizeF
+  rw [linspace_split a b k m hk hm, List.map_append, List.map_tail]
+
+/-- **Exact additivity of the model's polyline length of a function curve over a split at a sample point**, for every sample
+    count, every curve function and every distance oracle: the polyline over `k + m + 1` samples is the polyline over the first
+    `k + 1` plus the polyline over the last `m + 1`.  (The implementation's `get_length` always takes 100 samples of the range it
+    is asked for, so the three lengths of `get_length(a, c)`, `get_length(a, b)`, `get_length(b, c)` belong to three different
+    polylines; the discrepancy is only that re-sampling, not the summation.) -/
+theorem T_C16_additive_samples (d : α → α → Rat) (f : Rat → α) (a b : Rat) (k m : Nat) (hk : 1 ≤ k) (hm : 1 ≤ m) :
+    polyLenD d (discretizeF f a b (k + m + 1)) =
+      polyLenD d (discretizeF f a (sample a b (k + m) k) (k + 1)) +
+        polyLenD d (discretizeF f (sample a b (k + m) k) b (m + 1)) := by
+  obtain ⟨mid, hmid⟩ : ∃ mid, mid = sample a b (k + m) k := ⟨_, rfl⟩
+  rw [T_C16_samples_split f a b k m hk hm, ← hmid]
+  have h1 : discretizeF f a mid (k + 1) = ((List.range k).map (sample a mid k)).map f ++ [f mid] := by
+    unfold discretizeF; rw [linspace_eq]; simp
+  obtain ⟨l2, h2⟩ : ∃ l2, discretizeF f mid b (m + 1) = f mid :: l2 := by
+    obtain ⟨hh, _⟩ := T_C16_ends_function f mid b (m + 1) (by omega)
+    cases hD : discretizeF f mid b (m + 1) with
+    | nil => rw [hD] at hh; simp at hh
+    | cons x l2 => rw [hD] at hh; simp at hh; exact ⟨l2, by rw [hh]⟩
+  rw [h1, h2, List.tail_cons]
+  have : (((List.range k).map (sample a mid k)).map f ++ [f mid]) ++ l2
+      = ((List.range k).map (sample a mid k)).map f ++ f mid :: l2 := by simp
+  rw [this, polyLenD_append]
+
+/-- non-vacuity: 7 samples of `t ↦ t²` on [0, 3] split at the 4th sample (t = 2): 9 = 4 + 5 on the real line -/
+example : sample 0 3 6 4 = 2 ∧
+    polyLenD (fun (x y : Rat) => if x ≤ y then y - x else x - y) (discretizeF (fun t => t * t) 0 3 7) = 9 ∧
+    polyLenD (fun (x y : Rat) => if x ≤ y then y - x else x - y) (discretizeF (fun t => t * t) 0 2 5) = 4 ∧
+    polyLenD (fun (x y : Rat) => if x ≤ y then y - x else x - y) (discretizeF (fun t => t * t) 2 3 3) = 5 := by
+  refine ⟨?_, ?_, ?_, ?_⟩ <;> decide +kernel
+
+/-- **The length grows with the parameter**: for a non-negative distance oracle the polyline up to a sample is at most the
+    polyline up to any later sample (in particular at most the whole length), for every sample count -/
+theorem T_C16_length_monotone (d : α → α → Rat) (hd : ∀ x y, 0 ≤ d x y) (f : Rat → α) (a b : Rat) (k m : Nat)
+    (hk : 1 ≤ k) (hm : 1 ≤ m) :
+    0 ≤ polyLenD d (discretizeF f a (sample a b (k + m) k) (k + 1)) ∧
+    polyLenD d (discretizeF f a (sample a b (k + m) k) (k + 1)) ≤ polyLenD d (discretizeF f a b (k + m + 1)) := by
+  rw [T_C16_additive_samples d f a b k m hk hm]
+  have h1 := polyLenD_nonneg d hd (discretizeF f a (sample a b (k + m) k) (k + 1))
+  have h2 := polyLenD_nonneg d hd (discretizeF f (sample a b (k + m) k) b (m + 1))
+  exact ⟨h1, by linarith⟩
+
+/-- … and, for any polyline: a prefix is never longer than the whole -/
+theorem T_C16_prefix_le (d : α → α → Rat) (hd : ∀ x y, 0 ≤ d x y) (l1 : List α) (x : α) (l2 : List α) :
+    polyLenD d (l1 ++ [x]) ≤ polyLenD d (l1 ++ x :: l2) := by
+  rw [polyLenD_append d l1 x l2]
+  have := polyLenD_nonneg d hd (x :: l2)
+  linarith
+
+/-! ### round 6: CircleCurve over ℝ -/
+
+open CBV.C08 (Frame circAt) in
+/-- **Chord sum ≤ arc length** for `CircleCurve`, over ℝ: the polyline through the circle points of any ascending parameter list
+    (any sample count, any spacing) is at most `radius × (last − first)`, the length of the arc. -/
+theorem T_C16_circle_polyline_real {C e1 e2 : Vec ℝ} (hF : Frame e1 e2) {r : ℝ} (hr : 0 ≤ r) (ts : List ℝ)
+    (first last : ℝ) (hf : ts.head? = some first) (hl : ts.getLast? = some last) (hs : ts.Pairwise (· ≤ ·)) :
+    polyLenR distR (ts.map (circAt C e1 e2 r)) ≤ r * (last - first) := by
+  have h1 := circle_polyline_le (C := C) hF hr ts
+  rw [variation_sorted ts last hl hs first hf] at h1
+  exact h1
+
+open CBV.C08 (Frame circAt) in
+/-- non-vacuity: a frame and an ascending parameter list -/
+example : Frame (⟨1, 0, 0⟩ : Vec ℝ) ⟨0, 1, 0⟩ ∧ ([0, 1 / 4, 1 / 2, 1] : List ℝ).Pairwise (· ≤ ·) := by
+  refine ⟨⟨?_, ?_, ?_⟩, ?_⟩
+  · norm_num [Vec.nsq, Vec.dot]
+  · norm_num [Vec.nsq, Vec.dot]
+  · norm_num [Vec.dot]
+  · simp only [List.pairwise_cons, List.mem_cons, List.not_mem_nil, forall_eq_or_imp, or_false]
+    norm_num
+
+/-- the samples of the model's `np.linspace(a, b, N + 1)` are ascending for `a ≤ b` -/
+theorem linspace_sorted (a b : Rat) (hab : a ≤ b) (N : Nat) : (linspace a b (N + 1)).Pairwise (· ≤ ·) := by
+  rw [linspace_eq, List.pairwise_append]
+  have hstep : 0 ≤ (b - a) / (N : Rat) := div_nonneg (sub_nonneg.mpr hab) (Nat.cast_nonneg N)
+  refine ⟨?_, by simp, ?_⟩
+  · rw [List.pairwise_map]
+    apply List.Pairwise.imp _ (List.pairwise_lt_range (n := N))
+    intro i j hij
+    unfold sample
+    have : (i : Rat) ≤ (j : Rat) := by exact_mod_cast le_of_lt hij
+    nlinarith
+  · intro x hx y hy
+    simp only [List.mem_singleton] at hy
+    subst hy
+    obtain ⟨i, hi, rfl⟩ := List.mem_map.mp hx
+    have hiN : i < N := List.mem_range.mp hi
+    have hN : (0 : Rat) < N := by exact_mod_cast (by omega : 0 < N)
+    have hiN' : (i : Rat) ≤ N := by exact_mod_cast le_of_lt hiN
+    unfold sample
+    have e : y = a + (N : Rat) * ((y - a) / (N : Rat)) := by field_simp; ring
+    have : (i : Rat) * ((y - a) / (N : Rat)) ≤ (N : Rat) * ((y - a) / (N : Rat)) :=
+      mul_le_mul_of_nonneg_right hiN' hstep
+    linarith
+
+open CBV.C08 (Frame circAt) in
+/-- … hence the polyline of `AnalyticCurve.get_length` for a `CircleCurve` (the model's `linspace` with **any** sample count ≥ 2, read
+    in ℝ) never exceeds the arc length `r·(b − a)` -/
+theorem T_C16_circle_length_real {C e1 e2 : Vec ℝ} (hF : Frame e1 e2) {r : ℝ} (hr : 0 ≤ r) (a b : Rat) (hab : a ≤ b) (N : Nat)
+    (hN : 1 ≤ N) :
+    polyLenR distR (((linspace a b (N + 1)).map (fun t : Rat => (t : ℝ))).map (circAt C e1 e2 r)) ≤ r * ((b : ℝ) - (a : ℝ)) := by
+  apply T_C16_circle_polyline_real hF hr
+  · rw [linspace_eq]
+    obtain ⟨n, rfl⟩ : ∃ n, N = n + 1 := ⟨N - 1, by omega⟩
+    simp [List.range_succ_eq_map, sample]
+  · rw [linspace_eq]; simp
+  · rw [List.pairwise_map]
+    exact (linspace_sorted a b hab N).imp (fun h => by exact_mod_cast h)
+
+open CBV.C08 (Frame circAt) in
+/-- **The closest parameter of a point is its angle**, over ℝ: for a query at the angle `φ` of the circle's frame — any
+    distance `ρ ≥ 0` from the axis, any height `h` off the plane — the circle point at `φ` is at least as close as the circle
+    point at every other parameter `t`. -/
+theorem T_C16_circle_closest_real {C e1 e2 : Vec ℝ} (hF : Frame e1 e2) {r ρ : ℝ} (hr : 0 ≤ r) (hρ : 0 ≤ ρ) (φ h t : ℝ) :
+    distR (circAt C e1 e2 r φ) (Vec.add (circAt C e1 e2 ρ φ) (Vec.smul h (Vec.cross e1 e2)))
+      ≤ distR (circAt C e1 e2 r t) (Vec.add (circAt C e1 e2 ρ φ) (Vec.smul h (Vec.cross e1 e2))) := by
+  unfold distR
+  apply Real.sqrt_le_sqrt
+  rw [circle_query_sq hF, circle_query_sq hF, sub_self, Real.cos_zero]
+  have := mul_nonneg (mul_nonneg hr hρ) (sub_nonneg.mpr (Real.cos_le_one (t - φ)))
+  linarith
 
 /-! ### curve edges -/
 
